@@ -116,6 +116,19 @@ def gen(rng, tier):
         cases.append({"a": a, "b": b, "drive": "tighten"})
     for i, c in enumerate(cases):      # alternate the status-output flag deterministically
         c.setdefault("quiet", i % 2 == 1)
+        if i % (7 if quick else 5) == 0 and len(c["a"]) + len(c["b"]) <= 40:
+            c["shown"] = True          # also read the coloured rendering back
+    # bytes strings sharing a NUL / quote / backslash: what is shown must be what the script says
+    for a, b in [("a\x00b", "a\x00c"), ("\x00", "\x00\x00"), ('a"b', 'a"c'), ("x\\y", "x\\z"), ("\x00ab\x00", "ab\x00")]:
+        cases.append({"a": a, "b": b, "drive": "tighten", "bytes": True, "shown": True, "quiet": True})
+        cases.append({"a": a, "b": b, "drive": "tighten", "shown": True, "quiet": True})
+    # several comparisons of the SAME shape alive at once, refined in turns
+    for _ in range(40 if quick else 600):
+        k = rng.randint(2, 4)
+        la, lb = rng.randint(2, 6), rng.randint(2, 6)
+        al = rng.choice(["ab", "abc", "abcdef"])
+        pairs = [["".join(rng.choice(al) for _ in range(la)), "".join(rng.choice(al) for _ in range(lb))] for _ in range(k)]
+        cases.append({"multi": pairs, "a": "", "b": "", "drive": "tighten", "quiet": True})
     return cases
 
 
@@ -135,9 +148,71 @@ def impl(case):
         graphtage.printer.DEFAULT_PRINTER.quiet, graphtage.levenshtein.DEFAULT_PRINTER.quiet = olds
 
 
+def _shown(a, b):
+    """What is SHOWN for the diff of two strings: the coloured rendering of StringNode(a).diff(StringNode(b)) through the
+    default formatter, read back as counts of characters printed plain / on red / on green (quotes, the b prefix of bytes
+    and the arrow excluded).  None if the rendering cannot be read."""
+    import io
+    from graphtage import StringNode
+    from graphtage import json as gj
+    from graphtage.printer import Printer
+    from harness.streams import render as R
+    d = StringNode(a).diff(StringNode(b))
+    buf = io.StringIO()
+    p = Printer(out_stream=buf, ansi_color=True, quiet=True)
+    gj.JSONFormatter.DEFAULT_INSTANCE.print(p, d)
+    raw = buf.getvalue()
+    try:
+        seq = R.recover(raw)
+    except Exception as e:          # noqa
+        return {"unreadable": str(e)[:100], "raw": raw[:200]}
+    text = {0: "", 1: "", 2: ""}
+    for ch, m in seq:
+        if m in text:
+            text[m] += ch
+    return {"plain": text[0], "removed": text[1], "inserted": text[2]}
+
+
+def _impl_multi(case):
+    """several comparisons alive at once, refined in turns (what a mapping with renamed keys does to its candidate pairs)"""
+    from graphtage import StringNode, StringEdit
+    from graphtage.edits import Insert, Match, Remove
+    pairs = case["multi"]
+    edits = [StringNode(a).edits(StringNode(b)) for a, b in pairs]
+    live = [e for e in edits if isinstance(e, StringEdit)]
+    guard = 0
+    while live:
+        guard += 1
+        if guard > 200000:
+            raise RuntimeError("tighten_bounds does not terminate")
+        live = [e for e in live if e.tighten_bounds()]
+    out = []
+    for (a, b), e in zip(pairs, edits):
+        if not isinstance(e, StringEdit):
+            out.append(None)
+            continue
+        kept = rem = ins = 0
+        for sub in e.edit_distance.edits():
+            if isinstance(sub, Match):
+                if sub.from_node.object == sub.to_node.object:
+                    kept += 1
+                else:
+                    rem += 1
+                    ins += 1
+            elif isinstance(sub, Remove):
+                rem += 1
+            elif isinstance(sub, Insert):
+                ins += 1
+        c = e.bounds()
+        out.append([kept, rem, ins, int(c.lower_bound), int(c.upper_bound)])
+    return {"kind": "multi", "multi": out}
+
+
 def _impl(case):
     from graphtage import StringNode, StringEdit
     from graphtage.edits import Insert, Match, Remove
+    if "multi" in case:
+        return _impl_multi(case)
     a, b = case["a"], case["b"]
     if case.get("bytes"):
         # bytes objects: the elements graphtage compares are ints; reported here as the Latin-1 characters of the same
@@ -179,8 +254,11 @@ def _impl(case):
         else:
             script.append(["?", type(sub).__name__, cc])
     cost = e.bounds()
-    return {"kind": "stringedit", "cost": [int(cost.lower_bound), int(cost.upper_bound)], "script": script,
-            "tighten_after": bool(e.tighten_bounds())}
+    obs = {"kind": "stringedit", "cost": [int(cost.lower_bound), int(cost.upper_bound)], "script": script,
+           "tighten_after": bool(e.tighten_bounds())}
+    if case.get("shown"):
+        obs["shown"] = _shown(a, b)
+    return obs
 
 
 # ------------------------------------------------------------------------------------------------ model / expectation
@@ -195,7 +273,7 @@ def _ops(case, obs):
 
 
 def to_model(case, obs):
-    if not isinstance(obs, dict) or obs.get("error"):
+    if not isinstance(obs, dict) or obs.get("error") or "multi" in case:
         return None
     return {"s": NAME, "a": [ord(ch) for ch in case["a"]], "b": [ord(ch) for ch in case["b"]]}
 
@@ -227,7 +305,69 @@ def _hit(key, what):
     return {"prop": "C11", "key": key, "what": what}
 
 
+def _monitor_multi(case, obs):
+    hits = []
+    for (a, b), r in zip(case["multi"], obs.get("multi") or []):
+        if r is None:
+            continue
+        kept, rem, ins, lo, hi = r
+        L = lcs_len(a, b)
+        if kept != L or rem + ins != len(a) + len(b) - 2 * L:
+            hits.append(_hit("string-not-lcs:interleaved", f"{len(case['multi'])} comparisons refined in turns: {a!r} -> {b!r} keeps {kept} characters, the longest common subsequence has {L}"))
+            break
+        if lo != hi or hi != rem + ins:
+            hits.append(_hit("string-cost:interleaved", f"{a!r} -> {b!r} (refined in turns with others): bounds [{lo}, {hi}], {rem}+{ins} characters changed"))
+            break
+    return hits
+
+
+def _monitor_shown(case, obs):
+    """the characters SHOWN as unchanged / removed / inserted in the coloured rendering"""
+    sh = obs.get("shown")
+    if not sh:
+        return []
+    a, b = case["a"], case["b"]
+    if "unreadable" in sh:
+        return [_hit("string-shown-unreadable", f"{a!r} -> {b!r}: the rendering cannot be read back: {sh}")]
+    esc = (lambda x: x)
+    L = lcs_len(a, b)
+    # printed characters are escaped (a quote is two characters): compare through the printed length of single characters
+    def plen(text):
+        import json
+        return sum(len(json.dumps(ch if not case.get("bytes") else _bytes_char(ch))[1:-1]) for ch in text)
+    kept_printed = len(sh["plain"]) - 2 - (1 if case.get("bytes") else 0) * 0
+    hits = []
+    quotes = sh["plain"].count('"')
+    body = sh["plain"]
+    # strip the delimiters: leading (b)" and trailing "
+    if body.startswith('b"'):
+        body = body[2:]
+    elif body.startswith('"'):
+        body = body[1:]
+    if body.endswith('"'):
+        body = body[:-1]
+    want_min, removed_min, inserted_min = None, None, None
+    kept_chars = [op[1] for op in _ops(case, obs)[1] if op[0] == "k"]
+    rem_chars = [op[1] for op in _ops(case, obs)[1] if op[0] in "rs"]
+    ins_chars = [(op[2] if op[0] == "s" else op[1]) for op in _ops(case, obs)[1] if op[0] in "is"]
+    if len(body) != plen(kept_chars) or len(sh["removed"]) != plen(rem_chars) or len(sh["inserted"]) != plen(ins_chars):
+        hits.append(_hit("string-shown-differs-from-script", f"{a!r} -> {b!r}: the rendering shows {len(body)} unchanged / {len(sh['removed'])} removed / {len(sh['inserted'])} inserted printed characters, the script has {plen(kept_chars)} / {plen(rem_chars)} / {plen(ins_chars)}: {sh}"))
+    return hits
+
+
+def _bytes_char(ch):
+    """StringFormatter.write_char's text for one element of a bytes object (before the JSON formatter escapes it)"""
+    c = ord(ch)
+    if 32 <= c <= 126 or ch in "\n\t\r":
+        return ch
+    return "\\x%02x" % c
+
+
 def monitor(case, obs):
+    if "multi" in case:
+        if not isinstance(obs, dict) or obs.get("error"):
+            return [_hit("string-crash:" + str(obs.get("exc", "?") if isinstance(obs, dict) else "?"), f"several comparisons refined in turns raised/hung: {str(obs)[:200]}")]
+        return _monitor_multi(case, obs)
     a, b = case["a"], case["b"]
     if not isinstance(obs, dict):
         return [_hit("string-crash", "no observation")]
@@ -269,10 +409,13 @@ def monitor(case, obs):
             hits.append(_hit("string-cost", f"{a!r} -> {b!r}: cost {obs['cost'][1]} but {removed}+{inserted} characters changed"))
         if obs.get("tighten_after"):
             hits.append(_hit("string-tighten-after", f"{a!r} -> {b!r}: tighten_bounds() True after completion"))
+        hits += _monitor_shown(case, obs)
     return hits
 
 
 def classify(case, obs):
+    if "multi" in case:
+        return f"interleaved:{len(case['multi'])}"
     a, b = case["a"], case["b"]
     if not isinstance(obs, dict) or obs.get("error"):
         return "error"
